@@ -178,7 +178,7 @@ def _norm(x):
     return np.asarray(x, dtype=float)
 
 
-def compare(rec, name, kind, a, b, parents, tol):
+def compare(rec, name, kind, a, b, parents, tol, floor=1.0):
     """a = value on G, b = value on the split network; parents[u] = node of
     G that node u of the split network descends from."""
     parents = np.asarray(parents)
@@ -206,7 +206,7 @@ def compare(rec, name, kind, a, b, parents, tol):
         # magnitude (1e-6 .. 1e6) are generated
         with np.errstate(invalid="ignore"):
             fin = np.abs(np.concatenate([a[np.isfinite(a)], b[np.isfinite(b)],
-                                         [1.0]]))
+                                         [1.0, floor]]))
         s_ = float(fin.max())
         rec.close(b / s_, a[parents] / s_, name, rtol=tol, atol=tol * 1e-3)
     elif kind == "pair":
@@ -291,13 +291,19 @@ def oracle_network(case, rec):
                 connected and g["edges"] and n >= 3):
             continue
         meth = _base(name)
-        tol = 1e-6 if "eigenvector" in name else 1e-9
+        # ARPACK (eigsh, tol=1e-8 on the eigenvalue): vectors agree to ~1e-5
+        tol = 1e-4 if "eigenvector" in name else 1e-9
         if "newman" in name or "arenas" in name:
             tol = 1e-7
         oka, a = rec.call(name + "_raises", getattr(net, meth), **kw)
         okb, b = rec.call(name + "_raises_split", getattr(net2, meth), **kw)
         if oka and okb:
-            compare(rec, name, kind, a, b, parents, tol)
+            # random-walk betweenness comes out of an inverted matrix whose
+            # entries are of the order (total weight)^2: its rounding noise
+            # (also on entries that are exactly 0) scales with that
+            floor = float(np.sum(w)) ** 2 if (
+                "newman" in name or "arenas" in name) else 1.0
+            compare(rec, name, kind, a, b, parents, tol, floor)
 
 
 def oracle_interacting(case, rec):
